@@ -112,6 +112,12 @@ def c11(seed, tier, broken):
     if w:
         w["match"] = "invariant:%s" % w["kind"]
         found.append(w)
+    else:
+        w2, ev2 = G.search_optimizer_invariants(seed, 60 if big else (30 if tier == "escalated" else 10))
+        ev += ev2
+        if w2:
+            w2["match"] = "invariant:%s" % w2["kind"]
+            found.append(w2)
     return dict(found=found, evaluations=ev, worst_unit_norm_deviation=worst)
 
 
@@ -155,6 +161,24 @@ def c02(seed, tier, broken):
     for k in range(n):
         rng = Rng(seed, "c02search|%d" % k)
         g, desc = G.make_graph(rng, noise=rng.choice([0.0, 0.1, 1.0]))
+        # information in small units (1/mm^2, weak priors): every entry far below numpy's default absolute tolerances
+        if rng.random() < 0.3:
+            sc = 10 ** rng.uniform(-13, -7)
+            for e in desc["edges"]:
+                e["info"] = (np.asarray(e["info"], dtype=np.float64) * sc).tolist()
+            desc = dict(desc, information_scale=sc)
+            g = G.rebuild(desc)
+        # the same edge OBJECTS were used before in another Graph over other Vertex objects with the same ids (scoring one
+        # set of measurements against an initial guess and then against a reference solution): chi2 is about the vertices of
+        # THIS graph
+        if rng.random() < 0.3:
+            from graphslam.graph import Graph as _Graph
+            from graphslam.vertex import Vertex as _Vertex
+
+            g.calc_chi2()
+            vs = [_Vertex(v["id"], G.mk_pose(v["cls"], G.rand_pose_vals(rng, v["cls"])), fixed=bool(v["fixed"])) for v in desc["vertices"]]
+            g = _Graph(list(g._edges), vs)
+            desc = dict(desc, vertices=[dict(v, vals=np.asarray(x.pose).tolist()) for v, x in zip(desc["vertices"], vs)], reused_edge_objects=True)
         total = 0.0
         for ei, e in enumerate(g._edges):
             spec = S.edge_error(e)
